@@ -10,7 +10,10 @@ import (
 // and without prefilter. The classes are derived from features of the pattern
 // and the failing input that explain the disagreement; whatever fits no class
 // is reported under its own pattern.
-func classify(multiline bool, pattern, in string, on, off result) string {
+//
+// probe evaluates another input on the same pair (prefilter on, off); it lets a
+// class be defined by behaviour instead of by a guess at the internals.
+func classify(multiline bool, pattern, in string, on, off result, probe func(string) (on, off result)) string {
 	if on.oob || off.oob {
 		return "capture-index-out-of-range"
 	}
@@ -68,9 +71,12 @@ func classify(multiline bool, pattern, in string, on, off result) string {
 		if trieShape(re) {
 			return "prefilter:trie-prefix-joined-to-non-adjacent-literal"
 		}
-		if ci && len(lits) > 0 && isASCII(in) && in != strings.ToLower(in) && containsAll(strings.ToLower(in), lits) {
-			// every mandatory literal is there modulo ASCII case, yet the input was rejected
-			return "prefilter:ascii-case-fold-miss"
+		if lower := strings.ToLower(in); ci && isASCII(in) && in != lower && probe != nil {
+			// the same input in lower case is accepted by both, with upper-case
+			// ASCII letters only the prefilter rejects it
+			if on2, off2 := probe(lower); on2.ok && off2.ok {
+				return "prefilter:ascii-case-fold-miss"
+			}
 		}
 		return "unclassified:false-negative:" + pattern
 	case !off.ok && on.ok:
